@@ -6,6 +6,7 @@ import (
 	"os"
 	"runtime/debug"
 	"sort"
+	"strings"
 	"sync"
 	"time"
 
@@ -51,13 +52,13 @@ type Engine struct {
 	FuncsSeen map[string]bool
 	ExtUsed   map[string]int
 
-	Native      *NativeHelper
-	RefRejected map[string]string
-	Cfg         map[string]int
-	blockHooks  map[*ssa.BasicBlock]func(ex *Exec, fr *frame)
-	returnHooks map[*ssa.Function]func(ex *Exec, fr *frame)
-	NoSymIndexLoads bool // disable if-then-else loads through symbolic indexes (fork per index value instead)
-	Tactic      string // optional z3 tactic for check-sat-using (e.g. QF_BV pipelines)
+	Native          *NativeHelper
+	RefRejected     map[string]string
+	Cfg             map[string]int
+	blockHooks      map[*ssa.BasicBlock]func(ex *Exec, fr *frame)
+	returnHooks     map[*ssa.Function]func(ex *Exec, fr *frame)
+	NoSymIndexLoads bool   // disable if-then-else loads through symbolic indexes (fork per index value instead)
+	Tactic          string // optional z3 tactic for check-sat-using (e.g. QF_BV pipelines)
 }
 
 func (e *Engine) methodSet(t types.Type) *types.MethodSet {
@@ -115,24 +116,24 @@ type PathResult struct {
 
 // Exec is the state of one path.
 type Exec struct {
-	eng       *Engine
-	tt        *TermTable
-	solver    *Solver
-	pc        []*Term
-	sent      int
-	prefix    []uint64
-	decisions []uint64
-	model     Model
-	globals   map[*ssa.Global]*value
-	steps     int
-	depth     int
-	top       *frame
-	permN     int
-	concCap   int
-	panicFrom string
+	eng        *Engine
+	tt         *TermTable
+	solver     *Solver
+	pc         []*Term
+	sent       int
+	prefix     []uint64
+	decisions  []uint64
+	model      Model
+	globals    map[*ssa.Global]*value
+	steps      int
+	depth      int
+	top        *frame
+	permN      int
+	concCap    int
+	panicFrom  string
 	lazyForced []string
-	funcsSeen map[*ssa.Function]bool
-	extUsed   map[string]int
+	funcsSeen  map[*ssa.Function]bool
+	extUsed    map[string]int
 
 	OutGoat []Seg
 	OutRef  []Seg
@@ -658,6 +659,30 @@ func (ex *Exec) Call(fn value, args ...value) (res value, pan *targetPanic) {
 		if r := recover(); r != nil {
 			if tp, ok := r.(targetPanic); ok {
 				pan = &tp
+				return
+			}
+			panic(r)
+		}
+	}()
+	res = ex.call(nil, 0, fn, args)
+	return
+}
+
+// CallBounded is Call, except that exceeding the step bound inside the call does not end the path: the overrun is
+// reported (unwound != "") and the step counter restarts, so that the caller can still run the other side of a
+// comparison ("one side terminates within the bound, the other does not").
+func (ex *Exec) CallBounded(fn value, args ...value) (res value, pan *targetPanic, unwound string) {
+	top, depth := ex.top, ex.depth
+	defer func() {
+		if r := recover(); r != nil {
+			if tp, ok := r.(targetPanic); ok {
+				pan = &tp
+				return
+			}
+			if pe, ok := r.(pathEnd); ok && pe.kind == endUnwind && strings.HasPrefix(pe.msg, "step bound") {
+				unwound = pe.msg
+				ex.top, ex.depth = top, depth
+				ex.steps = 0
 				return
 			}
 			panic(r)
